@@ -20,6 +20,12 @@ KINDS_LIT = ["absent", "null", "s_abc", "s_xyz", "s_near", "s_long", "s_uni", "s
 KINDS_LITM = ["o_tags8a", "o_tags8b", "o_tags_rep", "o_tag_uni", "o_k"]
 # literal sets at the 15-value limit: the same values seen again (in another sample, in another order) must not change the outcome
 KINDS_LITORDER = ["absent", "s_abc", "l_strs15", "l_strs16", "l_rep16", "l_strs8a", "l_strs8b", "s_long"]
+# strings that several date/time pseudo-types accept (with the datetime classes registered): the resolved type must not depend on
+# which of them was seen first
+KINDS_DATEORDER = ["absent", "s_date", "s_datetime", "s_time", "s_hm", "s_int", "s_abc", "s_date2"]
+# short strings that mix a non-printable character with a character outside the BMP (an escaping routine that switches to
+# \\uXXXX escapes for non-printable text writes the astral character as a surrogate pair)
+KINDS_ODDSTR = ["absent", "null", "int", "s_abc", "s_zwj", "s_nl_astral", "s_tab"]
 KINDS_SAMESTR = ["absent", "null", "s_abc", "s_xyz", "l_strs_ab", "o_same"]
 KINDS_ORDER = ["absent", "null", "int", "float", "bool", "s_abc", "l_int", "o_k", "l_mixed_ref_int", "l_mixed_ref_str"]
 # objects for the dict-keys options and objects that differ only in a leaf two levels down
@@ -38,7 +44,8 @@ KINDS_SHAPE_LISTS = [f"shl:{a}{b}{c}{d}" for a in _SH_OPTS for b in _SH_OPTS for
                      if (a, b) != ("-", "-") and (c, d) != ("-", "-") and (a, b) < (c, d)]
 
 ATOMS = {"s_abc": "abc", "s_xyz": "xyz", "s_int": "12", "s_float": "1.5", "s_bool": "true", "s_long": LONG, "s_empty": "",
-         "s_date": "2020-01-02", "s_time": "11:22:33", "s_datetime": "2020-01-02T11:22:33", "s_near": NEAR, "s_int2": "-7",
+         "s_zwj": "\U0001F469\u200d\U0001F4BB", "s_nl_astral": "line\n\U0001F600", "s_tab": "a\tb",
+         "s_date": "2020-01-02", "s_hm": "12:30", "s_date2": "2021-03-04", "s_time": "11:22:33", "s_datetime": "2020-01-02T11:22:33", "s_near": NEAR, "s_int2": "-7",
          "s_nan": "nan", "s_True": "True", "s_bool_pad": " true", "s_int_pad": " 12\n", "s_float_pad": "\t1.5 ", "s_False_nl": "False\n", "s_pad_plain": " kg", "s_pad_plain2": "lb\t", "s_uni": "\u041c\u043e\u0441\u043a\u0432\u0430 \u041a\u0438\u0457\u0432",
          "s_esc": '"' * 6 + "\\" * 5 + "\t\n"}
 STRS16 = [f"v{i:02d}" for i in range(16)]
